@@ -226,3 +226,19 @@ Proof.
   - apply no_optional_ok. intros u [<-|[]]. reflexivity.
   - vm_compute. discriminate.
 Qed.
+
+(* ------------------------------------------------------------------ combined statements *)
+Theorem sorted_deps_canonical : forall l l',
+  Permutation l l' -> nsort l = nsort l' /\ Sorted le (nsort l) /\ Permutation (nsort l) l.
+Proof. intros l l' H. split; [now apply nsort_perm_eq|split; [apply nsort_sorted|apply nsort_perm]]. Qed.
+
+Theorem spec_order_indep_of_hash : forall pi pi' specs,
+  (forall l, Permutation (pi l) l) -> (forall l, Permutation (pi' l) l) ->
+  resolve (present_sorted pi) specs = resolve (present_sorted pi') specs
+  /\ prop_order (present_sorted pi) specs = prop_order (present_sorted pi') specs.
+Proof. intros. split; [now apply resolve_sorted_indep|now apply prop_order_sorted_indep]. Qed.
+
+Theorem private_draws_keep_global : forall ops w,
+  (forallb is_private ops = true -> w_glob (run_ops ops w) = w_glob w)
+  /\ w_glob (run_ops ops w) = skip (n_global ops) (w_glob w).
+Proof. intros. split; [apply private_ops_keep_global|apply global_cursor]. Qed.
